@@ -120,7 +120,10 @@ class Lexer:
         """
         '([^'\\\\]|\\\\.)*'
         """
-        t.value = decode_escapes(t.value[1:-1])
+        try:
+            t.value = decode_escapes(t.value[1:-1])
+        except UnicodeDecodeError:
+            raise exceptions.YaqlLexicalException(t.value, t.lexpos)
         return t
 
     @staticmethod
@@ -128,7 +131,10 @@ class Lexer:
         """
         "([^"\\\\]|\\\\.)*"
         """
-        t.value = decode_escapes(t.value[1:-1])
+        try:
+            t.value = decode_escapes(t.value[1:-1])
+        except UnicodeDecodeError:
+            raise exceptions.YaqlLexicalException(t.value, t.lexpos)
         t.type = 'QUOTED_STRING'
         return t
 
